@@ -509,6 +509,11 @@ def _note_raise (e, args, ex):
     if all(a is not OPAQUE for a in args): RAISED.append((norm(e)[:80], type(ex).__name__, str(ex)[:80]))
   except Exception: pass
 
+class LambdaVal(object):
+  """value of a lambda expression (kept unevaluated; see _eval_call)"""
+  def __init__ (self, node): self.node = node
+  def __repr__ (self): return '<lambda %s>' % norm(self.node)[:40]
+
 def _eval_call (repo, module, e, env, cls):
   fn = e.func
   hook = getattr(env, 'call_hook', None)
@@ -516,6 +521,18 @@ def _eval_call (repo, module, e, env, cls):
     if getattr(hook, 'wants_env', False): hit, v = hook(e, env)
     else: hit, v = hook(e)
     if hit: return v
+  if isinstance(fn, ast.Name) and not e.keywords and isinstance(env.exact.get(fn.id), LambdaVal):
+    # a local bound to a lambda with plain positional parameters: its body evaluated with the arguments bound (free names are read
+    # from the current environment - the enclosing function's locals at the time of the call)
+    lam = env.exact[fn.id].node
+    ps_ = lam.args
+    if not (ps_.vararg or ps_.kwarg or ps_.kwonlyargs or ps_.defaults or ps_.posonlyargs) and len(ps_.args) == len(e.args) and not any(isinstance(a, ast.Starred) for a in e.args):
+      sub = Env(dict(env.exact), list(env.matchers), hook)
+      for pa_, a_ in zip(ps_.args, e.args):
+        v_ = eval_env2(repo, module, a_, env, cls)
+        _kill(sub, pa_.arg); sub.exact[pa_.arg] = v_
+      return eval_env2(repo, module, lam.body, sub, cls)
+    raise _Unknown()
   if isinstance(fn, ast.Name) and not e.keywords:
     args = [eval_env2(repo, module, a, env, cls) for a in e.args]
     if fn.id == 'len' and len(args) == 1: return len(args[0])
@@ -658,6 +675,7 @@ def eval_env2 (repo, module, e, env, cls=None):
     gen(0, env)
     return set(out) if isinstance(e, ast.SetComp) else out
   if isinstance(e, ast.Call): return _eval_call(repo, module, e, env, cls)
+  if isinstance(e, ast.Lambda): return LambdaVal(e)
   if isinstance(e, ast.Attribute):
     hit, v = env.lookup(e)
     if not hit:
